@@ -483,6 +483,113 @@ def run_end_to_end(params, known):
     return dict(name=params['name'], evaluations=count, nontrivial_keys=sorted(keys), violations=violations, known=[], samples=[])
 
 
+def run_conflicting_totals(params, known):
+    '''The same peer uses a transfer number again with another total length (it restarted): segments
+    of the old transfer (4 octets in 2 segments) and of the new one (6 octets in 3) arrive in every
+    order, every sequence of up to 5 of the 5 segments.  Which of the two wins is not prescribed;
+    whatever the receiver queues is exactly one of the two bundles, and only when every segment of that
+    bundle has arrived.'''
+    import itertools
+    violations = []
+    kinds = set()
+    count = 0
+    keys = set()
+
+    def viol(kind, detail, case):
+        if kind in kinds:
+            return
+        kinds.add(kind)
+        v = Violation(PROP, 'udp-reassembly', kind, dict(), '%r: %s' % (case, detail)).as_dict()
+        v['case'] = case
+        violations.append(v)
+    old = b'wxyz'
+    new = b'ABCDEF'
+    segs = {'old[0,2)': ('old', enc_segment(1, 4, 0, old[0:2])), 'old[2,4)': ('old', enc_segment(1, 4, 2, old[2:4])),
+            'new[0,2)': ('new', enc_segment(1, 6, 0, new[0:2])), 'new[2,4)': ('new', enc_segment(1, 6, 2, new[2:4])),
+            'new[4,6)': ('new', enc_segment(1, 6, 4, new[4:6]))}
+    need = {'old': {'old[0,2)', 'old[2,4)'}, 'new': {'new[0,2)', 'new[2,4)', 'new[4,6)'}}
+    data_of = {'old': old, 'new': new}
+    for n in range(2, 6):
+        for seq in itertools.permutations(sorted(segs), n):
+            count += 1
+            case = dict(arrivals=list(seq))
+            world = UdpWorld(dict(agents=('R',)))
+            seen = set()
+            popped = 0
+            for name in seq:
+                seen.add(name)
+                world.activate(None)
+                world.net.inject(R_ADDR, S_ADDR, segs[name][1])
+                world.quiesce()
+                fins = [sg for sg in world.signals['R'] if sg[0] == 'recv_bundle_finished']
+                for sg in fins[popped:]:
+                    popped += 1
+                    res = world.pop('R', sg[1])
+                    got = bytes(res[1]) if res[0] == 'ok' else None
+                    which = [k for (k, d) in data_of.items() if d == got]
+                    if not which:
+                        viol('corrupt-or-partial-bundle-queued', 'queued %r, the two bundles are %r and %r' % (got, old, new), case)
+                    elif not need[which[0]] <= seen:
+                        viol('bundle-queued-while-octets-missing', 'queued the %s bundle after %r' % (which[0], sorted(seen)), case)
+            if world.escaped:
+                viol('exception-escaped-callback', '%s: %s' % (world.escaped[-1][1], world.escaped[-1][3]), case)
+            keys.add(','.join(seq))
+    return dict(name=params['name'], evaluations=count, nontrivial_keys=sorted(keys), violations=violations, known=[], samples=[])
+
+
+def run_unusable_between(params, known):
+    '''A datagram the receiver cannot use arrives before, between or after the two segments of a
+    transfer (truncated CBOR, an unknown first octet, a transfer item of the wrong shape, offsets
+    beyond the announced total, a BPv6 bundle, an empty datagram): the transfer still completes with
+    exactly the bundle, whatever that datagram was.'''
+    violations = []
+    kinds = set()
+    count = 0
+    keys = set()
+
+    def viol(kind, detail, case):
+        if kind in kinds:
+            return
+        kinds.add(kind)
+        v = Violation(PROP, 'udp-reassembly', kind, dict(), '%r: %s' % (case, detail)).as_dict()
+        v['case'] = case
+        violations.append(v)
+    data = b'ABCDEF'
+    segs = [enc_segment(3, 6, 0, data[0:3]), enc_segment(3, 6, 3, data[3:6])]
+    unusable = [('truncated-array', b'\x9f\x01'), ('truncated-map', b'\xa1\x02'), ('truncated-bstr', b'\xa1\x02\x84\x03\x06\x00\x45AB'),
+                ('unknown-first-octet', b'\x21\x00'), ('text-string', b'\x63abc'), ('transfer-item-too-short', C.dumps({2: [3, 6, 0]})),
+                ('transfer-item-not-a-list', C.dumps({2: 5})), ('offset-beyond-total', enc_segment(3, 6, 9, b'zz')),
+                ('segment-longer-than-total', enc_segment(3, 6, 4, b'zzzzzz')), ('other-total', enc_segment(3, 7, 0, b'zz')),
+                ('bpv6', b'\x06\x00\x00'), ('empty', b''), ('unknown-extension-key', C.dumps({99: 1})), ('negative-key', C.dumps({-1: [1]}))]
+    for (uname, octets) in unusable:
+        for pos in (0, 1, 2):
+            count += 1
+            case = dict(unusable=uname, position=pos)
+            world = UdpWorld(dict(agents=('R',)))
+            seq = list(segs)
+            seq.insert(pos, octets)
+            for dg in seq:
+                world.activate(None)
+                world.net.inject(R_ADDR, S_ADDR, dg)
+                world.quiesce()
+            keys.add('%s/%d' % (uname, pos))
+            if world.escaped:
+                viol('exception-escaped-callback', '%s: %s' % (world.escaped[-1][1], world.escaped[-1][3]), case)
+            fins = [sg for sg in world.signals['R'] if sg[0] == 'recv_bundle_finished']
+            got = []
+            for sg in fins:
+                res = world.pop('R', sg[1])
+                got.append(bytes(res[1]) if res[0] == 'ok' else None)
+            if uname in ('offset-beyond-total', 'segment-longer-than-total', 'other-total') and pos < 2:
+                # a segment that claims to belong to the same transfer but does not fit it: which octets win is
+                # not prescribed, only that nothing corrupt is queued
+                if any(g != data for g in got):
+                    viol('corrupt-or-partial-bundle-queued', 'queued %r' % (got,), case)
+            elif got.count(data) != 1 or len(got) != 1:
+                viol('each-segment-once-but-not-exactly-one-copy', 'queued %r' % (got,), case)
+    return dict(name=params['name'], evaluations=count, nontrivial_keys=sorted(keys), violations=violations, known=[], samples=[])
+
+
 def run_pop_histories(params, known):
     '''Receive / pop histories at a real receiving agent: four bundles arrive one after the other
     (whole, or in two segments in either order); the user pops any announced and not yet popped
@@ -801,6 +908,8 @@ def scenarios(tier):
         name = 'sizing-%d/%d' % (part + 1, parts)
         out.append(dict(name=name, kind='enum', runner='run_sizing', params=dict(name=name, part=part, parts=parts, tier=tier), weight=50))
     out.append(dict(name='ranges', kind='enum', runner='run_ranges', params=dict(name='ranges'), weight=5))
+    out.append(dict(name='unusable-between', kind='enum', runner='run_unusable_between', params=dict(name='unusable-between'), weight=10))
+    out.append(dict(name='conflicting-totals', kind='enum', runner='run_conflicting_totals', params=dict(name='conflicting-totals'), weight=20))
     out.append(dict(name='end-to-end', kind='enum', runner='run_end_to_end', params=dict(name='end-to-end'), weight=30))
     out.append(dict(name='pop-histories', kind='enum', runner='run_pop_histories', params=dict(name='pop-histories'), weight=20))
     out.append(dict(name='paced-control', kind='enum', runner='run_paced_control', params=dict(name='paced-control'), weight=30))
@@ -821,6 +930,8 @@ ASSUMPTIONS = [
     'UDP modelled as datagrams that may be reordered and duplicated; the sending agent runs under a virtual clock (pacing timer)',
     'sizing: bundle lengths 2..70, 250..262, 65535/65536 (65530..65541 thorough); a bundle of exactly the MTU may be segmented',
     'reassembly: duplicates may yield a second complete copy but never a partial or corrupt one; histories of at most 4-6 datagrams',
+    'fourteen kinds of unusable datagrams before / between / after the two segments of a transfer',
+    'a transfer number used again by the same peer with another total length: every sequence of 2-5 of the five segments of the two transfers',
     'end to end: bundles of 40 ... 131073 octets through a real sender and receiver (datagrams in order / reversed), handed over as octets or as a file object positioned at 0 / 7 / its end; the popped octets are compared',
     'receive queue: four bundles (whole or in two segments, either order) and their pops in every interleaving',
     'paced sending: bundles of 70..1000 octets (whole and in 2..5 segments) with one or two SENDER_LISTEN announcements of the peer arriving on the sending socket at every pacing tick of the run',
